@@ -40,15 +40,15 @@ Lemma delim_rb : is_delim "]" = true. Proof. vm_compute. reflexivity. Qed.
 Lemma delim_q : is_delim "'" = true. Proof. vm_compute. reflexivity. Qed.
 
 (* ------------------------------------------------------------ ref_tokens *)
-Lemma ref_aux_run cur n rest :
-  forall_char is_name_char n = true ->
-  ref_tokens_aux cur (n ++ rest) = ref_tokens_aux (cur ++ n) rest.
-Proof.
-  revert cur. induction n as [|a n IH]; intros cur H; cbn [append forall_char] in *.
-  - rewrite append_nil_r. reflexivity.
-  - apply andb_true_iff in H as [Ha Hn]. cbn [ref_tokens_aux].
-    rewrite (name_not_delim _ Ha). rewrite (IH _ Hn). rewrite append_assoc. reflexivity.
-Qed.
+(* The writer's tokeniser on rendered paths.  Names in dot notation consist of name characters; a name in bracket notation may
+   contain ANY character except the apostrophe (so '.', '$', '[', ']', ':', ' ', '@' ... are all taken literally). *)
+Definition quote_free (n : string) : bool := forall_char (fun a => negb (Ascii.eqb a "'")) n.
+Definition wseg_ok (s : seg) : bool :=
+  match s with
+  | Dot n => negb (String.eqb n "") && forall_char is_name_char n
+  | Brq n => quote_free n
+  | Idx n => all_digits n
+  end.
 
 Lemma eqb_nonempty n : negb (String.eqb n "") = true -> String.eqb n "" = false.
 Proof. intros H. apply negb_true_iff in H. exact H. Qed.
@@ -62,19 +62,132 @@ Proof.
   destruct s; cbn [render_segs render_seg append]; eauto using delim_dot, delim_lb.
 Qed.
 
-Lemma ref_aux_flush n rest :
-  String.eqb n "" = false -> starts_with_delim rest ->
-  ref_tokens_aux n rest = n :: ref_tokens_aux "" rest.
+Lemma name_char_not_lb a : is_name_char a = true -> Ascii.eqb a "[" = false.
+Proof. destruct a as [[] [] [] [] [] [] [] []]; vm_compute; intros H; first [reflexivity | discriminate H]. Qed.
+
+(* outside a quoted name: a run of name characters followed by a delimiter (or the end) is collected into cur *)
+Lemma refq_run cur n rest :
+  forall_char is_name_char n = true -> starts_with_delim rest ->
+  ref_tokens_q false cur (n ++ rest) = ref_tokens_q false (cur ++ n) rest.
 Proof.
-  intros Hn [->|(d & r & -> & Hd)]; cbn [ref_tokens_aux].
-  - rewrite Hn. reflexivity.
-  - rewrite Hd, Hn. reflexivity.
+  revert cur. induction n as [|a n IH]; intros cur H Hr; cbn [append forall_char] in *.
+  - rewrite append_nil_r. reflexivity.
+  - apply andb_true_iff in H as [Ha Hn].
+    assert (Hstep : forall tail, tail <> "" -> ref_tokens_q false cur (String a tail) = ref_tokens_q false (cur ++ String a "") tail).
+    { intros tail Ht. destruct tail as [|b t]; [contradiction|]. cbn [ref_tokens_q].
+      rewrite (name_char_not_lb _ Ha), (name_not_delim _ Ha). reflexivity. }
+    destruct (n ++ rest) as [|b t] eqn:E.
+    + (* a is the last character of the whole text *)
+      destruct n; [|discriminate E]. cbn [append] in E. subst rest. cbn [ref_tokens_q append].
+      rewrite (name_not_delim _ Ha).
+      cbn [ref_tokens_q]. unfold flush.
+      destruct (String.eqb (cur ++ String a "") "") eqn:Z; [|reflexivity].
+      apply String.eqb_eq in Z. destruct cur; discriminate Z.
+    + rewrite Hstep by discriminate. rewrite (IH _ Hn Hr). rewrite append_assoc. reflexivity.
+Qed.
+
+(* inside a quoted name: everything up to the closing "']" is the name *)
+Lemma refq_in_step cur a s :
+  Ascii.eqb a "'" = false -> s <> "" -> ref_tokens_q true cur (String a s) = ref_tokens_q true (cur ++ String a "") s.
+Proof.
+  intros H Hs. destruct s as [|b t]; [contradiction|].
+  remember (String b t) as s eqn:Es. cbn [ref_tokens_q]. rewrite Es at 1. cbv beta iota. rewrite H. cbn [andb]. reflexivity.
+Qed.
+
+Lemma refq_quoted cur n rest :
+  quote_free n = true ->
+  ref_tokens_q true cur (n ++ String "'" (String "]" rest)) = option_map (cons (cur ++ n)) (ref_tokens_q false "" rest).
+Proof.
+  revert cur. induction n as [|a n IH]; intros cur H; cbn [append] in *.
+  - cbn [ref_tokens_q]. cbn [Ascii.eqb Bool.eqb andb]. rewrite append_nil_r. reflexivity.
+  - unfold quote_free in H. cbn [forall_char] in H. apply andb_true_iff in H as [Ha Hn].
+    apply negb_true_iff in Ha.
+    rewrite refq_in_step; [|exact Ha|destruct n; discriminate].
+    rewrite (IH _ Hn). rewrite append_assoc. reflexivity.
+Qed.
+
+Lemma flush_nonempty n l : String.eqb n "" = false -> flush n l = n :: l.
+Proof. unfold flush. intros ->. reflexivity. Qed.
+
+(* a token that is complete when a delimiter (or the end) follows *)
+Lemma refq_flush n rest :
+  String.eqb n "" = false -> starts_with_delim rest ->
+  (forall l, ref_tokens_q false "" rest = Some l -> ref_tokens_q false n rest = Some (n :: l)).
+Proof.
+  intros Hn [->|(d & r & -> & Hd)] l; cbn [ref_tokens_q].
+  - intros H. inversion H; subst. unfold flush. rewrite Hn. reflexivity.
+  - destruct r as [|b r'].
+    + rewrite Hd. intros H. inversion H; subst. unfold flush. rewrite Hn. reflexivity.
+    + destruct (Ascii.eqb d "[" && Ascii.eqb b "'").
+      * destruct (ref_tokens_q true "" r'); cbn [option_map]; intros H; inversion H; subst. rewrite flush_nonempty by exact Hn. reflexivity.
+      * rewrite Hd. destruct (ref_tokens_q false "" (String b r')); cbn [option_map]; intros H; inversion H; subst.
+        rewrite flush_nonempty by exact Hn. reflexivity.
 Qed.
 
 Lemma forall_char_digits_name n : forall_char is_digit n = true -> forall_char is_name_char n = true.
 Proof.
   induction n as [|a n IH]; cbn [forall_char]; intros H; [reflexivity|].
   apply andb_true_iff in H as [Ha Hn]. rewrite (digit_is_name _ Ha), (IH Hn). reflexivity.
+Qed.
+
+(* single steps of the tokeniser outside a quoted name *)
+Lemma refq_out_step_delim cur d b t :
+  is_delim d = true -> (Ascii.eqb d "[" && Ascii.eqb b "'") = false ->
+  ref_tokens_q false cur (String d (String b t)) = option_map (flush cur) (ref_tokens_q false "" (String b t)).
+Proof.
+  intros Hd Hq. remember (String b t) as s eqn:Es. cbn [ref_tokens_q]. rewrite Es at 1. cbv beta iota. rewrite Hq, Hd. reflexivity.
+Qed.
+Lemma refq_out_open cur t :
+  ref_tokens_q false cur (String "[" (String "'" t)) = option_map (flush cur) (ref_tokens_q true "" t).
+Proof. cbn [ref_tokens_q]. reflexivity. Qed.
+Lemma refq_out_last_delim cur d : is_delim d = true -> ref_tokens_q false cur (String d "") = Some (flush cur []).
+Proof. intros Hd. cbn [ref_tokens_q]. rewrite Hd. reflexivity. Qed.
+Lemma option_map_flush_nil (x : option (list string)) : option_map (flush "") x = x.
+Proof. destruct x; reflexivity. Qed.
+
+Lemma ref_tokens_render_segs l :
+  forallb wseg_ok l = true -> ref_tokens_q false "" (render_segs l) = Some (map seg_tok l).
+Proof.
+  induction l as [|s l IH]; cbn [forallb render_segs map]; intros H; [reflexivity|].
+  apply andb_true_iff in H as [Hs Hl]. specialize (IH Hl).
+  pose proof (render_segs_head l) as Hh.
+  destruct s as [n|n|n]; cbn [seg_tok render_seg wseg_ok] in *.
+  - (* .name *)
+    apply andb_true_iff in Hs as [Hne Hch]. apply eqb_nonempty in Hne.
+    destruct n as [|a n]; [discriminate Hne|]. cbn [append].
+    rewrite refq_out_step_delim by (first [exact delim_dot | reflexivity]). rewrite option_map_flush_nil.
+    change (String a (n ++ render_segs l)) with (String a n ++ render_segs l).
+    rewrite refq_run by assumption. cbn [append].
+    rewrite (refq_flush _ _ Hne Hh _ IH). reflexivity.
+  - (* ['name'] *)
+    cbn [append]. rewrite refq_out_open, option_map_flush_nil.
+    rewrite append_assoc. cbn [append]. rewrite refq_quoted by exact Hs. cbn [append]. rewrite IH. reflexivity.
+  - (* [digits] *)
+    unfold all_digits in Hs. apply andb_true_iff in Hs as [Hne Hd]. apply eqb_nonempty in Hne.
+    destruct n as [|a n]; [discriminate Hne|]. cbn [append forall_char] in *.
+    apply andb_true_iff in Hd as [Ha Hn].
+    assert (Hq : Ascii.eqb a "'" = false) by (destruct a as [[] [] [] [] [] [] [] []]; vm_compute in Ha |- *; first [reflexivity | discriminate Ha]).
+    rewrite refq_out_step_delim; [|exact delim_lb|rewrite Hq; apply andb_false_r]. rewrite option_map_flush_nil.
+    rewrite append_assoc. cbn [append].
+    change (String a (n ++ String "]" (render_segs l))) with (String a n ++ String "]" (render_segs l)).
+    rewrite refq_run; [|cbn [forall_char]; rewrite (digit_is_name _ Ha), (forall_char_digits_name _ Hn); reflexivity|right; eauto using delim_rb].
+    cbn [append].
+    assert (Hclose : ref_tokens_q false "" (String "]" (render_segs l)) = Some (map seg_tok l)).
+    { destruct (render_segs l) as [|b t] eqn:E.
+      - rewrite refq_out_last_delim by exact delim_rb. rewrite <- IH. reflexivity.
+      - rewrite refq_out_step_delim by (first [exact delim_rb | reflexivity]). rewrite option_map_flush_nil. exact IH. }
+    rewrite (refq_flush _ _ Hne (or_intror (ex_intro _ "]"%char (ex_intro _ (render_segs l) (conj eq_refl delim_rb)))) _ Hclose).
+    reflexivity.
+Qed.
+
+Theorem ref_tokens_render_w l :
+  forallb wseg_ok l = true -> ref_tokens (render l) = Some (map seg_tok l).
+Proof.
+  intros H. unfold ref_tokens, render. pose proof (ref_tokens_render_segs _ H) as R.
+  destruct (render_segs l) as [|b t] eqn:E.
+  - destruct l as [|s l]; [reflexivity|]. destruct s; discriminate E.
+  - assert (Hb : (Ascii.eqb "$" "[" && Ascii.eqb b "'") = false) by reflexivity.
+    rewrite refq_out_step_delim; [|vm_compute; reflexivity|exact Hb]. rewrite option_map_flush_nil. exact R.
 Qed.
 
 Lemma seg_ok_name s : seg_ok s = true ->
@@ -90,32 +203,26 @@ Proof.
     unfold tok_ok. rewrite (py_int_digits n) by exact Hd. exact Hd.
 Qed.
 
-Lemma ref_tokens_render_segs l :
-  forallb seg_ok l = true -> ref_tokens_aux "" (render_segs l) = map seg_tok l.
+Lemma name_chars_quote_free n : forall_char is_name_char n = true -> quote_free n = true.
 Proof.
-  induction l as [|s l IH]; cbn [forallb render_segs map]; intros H; [reflexivity|].
-  apply andb_true_iff in H as [Hs Hl]. specialize (IH Hl).
-  destruct (seg_ok_name _ Hs) as (Hne & Hchars & _).
-  destruct s as [n|n|n]; cbn [seg_tok render_seg append] in *.
-  - cbn [ref_tokens_aux]. rewrite delim_dot. cbn [String.eqb].
-    rewrite ref_aux_run by assumption. cbn [append].
-    rewrite ref_aux_flush by auto using render_segs_head. rewrite IH. reflexivity.
-  - cbn [ref_tokens_aux]. rewrite delim_lb. cbn [String.eqb ref_tokens_aux]. rewrite delim_q. cbn [String.eqb].
-    rewrite append_assoc. rewrite ref_aux_run by assumption. cbn [append].
-    rewrite ref_aux_flush; [|assumption|right; eauto using delim_q].
-    cbn [ref_tokens_aux]. rewrite delim_q, delim_rb. cbn [String.eqb]. rewrite IH. reflexivity.
-  - cbn [ref_tokens_aux]. rewrite delim_lb. cbn [String.eqb].
-    rewrite append_assoc. rewrite ref_aux_run by assumption. cbn [append].
-    rewrite ref_aux_flush; [|assumption|right; eauto using delim_rb].
-    cbn [ref_tokens_aux]. rewrite delim_rb. cbn [String.eqb]. rewrite IH. reflexivity.
+  unfold quote_free. induction n as [|a n IH]; cbn [forall_char]; intros H; [reflexivity|].
+  apply andb_true_iff in H as [Ha Hn]. rewrite (IH Hn), andb_true_r.
+  destruct a as [[] [] [] [] [] [] [] []]; vm_compute in Ha |- *; first [reflexivity | discriminate Ha].
+Qed.
+
+Lemma seg_ok_wseg_ok s : seg_ok s = true -> wseg_ok s = true.
+Proof.
+  intros H. destruct (seg_ok_name _ H) as (Hne & Hch & _).
+  destruct s as [n|n|n]; cbn [seg_ok seg_tok wseg_ok] in *.
+  - rewrite Hne, Hch. reflexivity.
+  - apply name_chars_quote_free; exact Hch.
+  - exact H.
 Qed.
 
 Theorem ref_tokens_render l :
-  forallb seg_ok l = true -> ref_tokens (render l) = map seg_tok l.
+  forallb seg_ok l = true -> ref_tokens (render l) = Some (map seg_tok l).
 Proof.
-  intros H. unfold ref_tokens, render. cbn [ref_tokens_aux].
-  replace (is_delim "$") with true by (vm_compute; reflexivity). cbn [String.eqb].
-  apply ref_tokens_render_segs. exact H.
+  intros H. apply ref_tokens_render_w. rewrite forallb_forall in *. intros s Hs. apply seg_ok_wseg_ok, H, Hs.
 Qed.
 
 (* ------------------------------------------------------------- parse_path *)
@@ -239,7 +346,7 @@ Proof.
   intros j r p e. unfold apply_resultpath_m. destruct p as [p|]; [|discriminate].
   destruct (String.eqb p "$"); [discriminate|].
   destruct (prefixb "$$" p); [intros H; inversion H; reflexivity|].
-  apply put_error_typing_tokens.
+  destruct (ref_tokens p); [apply put_error_typing_tokens|intros H; inversion H; reflexivity].
 Qed.
 
 Theorem put_wf_text : forall j r p j',
@@ -248,6 +355,39 @@ Proof.
   intros j r p j' Hj Hr. unfold apply_resultpath_m. destruct p as [p|].
   - destruct (String.eqb p "$"); [intros H; inversion H; subst; exact Hr|].
     destruct (prefixb "$$" p); [discriminate|].
+    destruct (ref_tokens p); [|discriminate].
     apply put_wf_tokens; [destruct j; exact Hj || reflexivity|exact Hr].
   - intros H; inversion H; subst. destruct j; exact Hj || reflexivity.
 Qed.
+
+(* bracket notation with ANY member name that has no apostrophe ('.', ':', '$', '[', ']', blanks ... included): what is placed there is
+   found there, and every other part of the input is as it was *)
+Theorem put_get_text_w : forall segs j r j',
+  forallb wseg_ok segs = true -> forallb tok_ok (map seg_tok segs) = true -> segs <> [] ->
+  apply_resultpath_m j r (Some (render segs)) = Ok j' ->
+  select_tokens j' (map seg_tok segs) = Some r.
+Proof.
+  intros segs j r j' Hok Htok Hne H.
+  destruct (render_not_root _ Hne) as [H1 H2].
+  unfold apply_resultpath_m in H. rewrite H1, H2, (ref_tokens_render_w _ Hok) in H.
+  eapply put_get_tokens; [exact Htok|exact H].
+Qed.
+
+Theorem put_frame_text_w : forall segs j r j' q,
+  forallb wseg_ok segs = true -> forallb tok_ok (map seg_tok segs) = true -> segs <> [] ->
+  apply_resultpath_m j r (Some (render segs)) = Ok j' ->
+  comparable (map seg_tok segs) q = false ->
+  select_tokens j' q = select_tokens (norm_input j) q.
+Proof.
+  intros segs j r j' q Hok Htok Hne H Hc.
+  destruct (render_not_root _ Hne) as [H1 H2].
+  unfold apply_resultpath_m in H. rewrite H1, H2, (ref_tokens_render_w _ Hok) in H.
+  eapply put_frame_tokens; [exact Htok|exact H|exact Hc].
+Qed.
+
+(* a bracket-quoted name that is never closed cannot be placed *)
+Example unterminated_name_is_unplaceable : apply_resultpath_m (JObj []) (JInt 1) (Some "$.a['b") = Err ResultPathMatchFailure.
+Proof. vm_compute. reflexivity. Qed.
+Example special_names_are_literal :
+  ref_tokens "$['a.b'].c['x:y$[0]'][2]" = Some ["a.b"; "c"; "x:y$[0]"; "2"] /\ forallb wseg_ok [Brq "a.b"; Dot "c"; Brq "x:y$[0]"; Idx "2"] = true.
+Proof. vm_compute. split; reflexivity. Qed.
